@@ -242,3 +242,109 @@ def css_scale_values(rng, quick):
         out.append('/*' + '*' * d)
         out.append('1 -' * d)
     return out
+
+
+# ------------------------------------------------------------------ option-sensitive documents (HTML call sequences)
+# Documented facts written out here (nothing is read from the library): the default values of the matcher options
+# `empty` and `special` as documented for Emmet's html-matcher (ScannerOptions: "empty -- list of elements that should
+# be treated as empty (e.g. without closing tag) in non-XML syntax", "special -- tags that should not parse inner
+# content and skip to closing tag ... value is either empty or list of `type` attribute values"): void elements img meta
+# link br base hr area wbr col embed input param source track; style (always special), script (special when it has no
+# `type` or a JavaScript-like one).  Same lists as html_gen.VOID / html_gen.JS_TYPES.
+OPT_DEFAULT_VOID = ['img', 'meta', 'link', 'br', 'base', 'hr', 'area', 'wbr', 'col', 'embed', 'input', 'param', 'source', 'track']
+OPT_DEFAULT_SPECIAL = ['style', 'script']
+OPT_JS_TYPES = ['', 'text/javascript', 'application/x-javascript', 'javascript', 'typescript', 'ts', 'coffee', 'coffeescript']
+OPT_ORDINARY = ['div', 'p', 'ul', 'li', 'span', 'x-foo']
+
+
+def option_templates():
+    """name -> function returning a FRESH options object (no part shared with an earlier result).  Every key of the
+    options of match / balanced_outward / balanced_inward alone, together, written out with its default value,
+    and no options object at all."""
+    return {
+        'none': lambda: None,
+        'html': lambda: {},
+        'xml': lambda: {'xml': True},
+        'xml-off-explicit': lambda: {'xml': False},
+        'defaults-explicit': lambda: {'xml': False, 'special': {'style': None, 'script': list(OPT_JS_TYPES)}, 'empty': list(OPT_DEFAULT_VOID)},
+        'empty-custom': lambda: {'empty': ['item', 'b', 'x-foo']},
+        'empty-none': lambda: {'empty': []},
+        'special-custom': lambda: {'special': {'raw': None, 'a': ['', 'a']}},
+        'nospecial': lambda: {'special': {}},
+        'ab': lambda: {'special': {'a': None, 'b': ['', 'a']}, 'empty': ['b', 'ab']},
+        'ab-xml': lambda: {'xml': True, 'special': {'b': ['a', 'b']}, 'empty': ['a']},
+        'xml-empty-custom': lambda: {'xml': True, 'empty': ['item', 'br']},
+        'xml-special-custom': lambda: {'xml': True, 'special': {'raw': None}},
+    }
+
+
+def option_names(opts):
+    """the names an options object gives a meaning to (its own keys only)"""
+    o = opts or {}
+    return list(o.get('empty', ())), list((o.get('special') or {}).keys())
+
+
+def gen_option_document(rng, opts, max_nodes=9):
+    """A small document in which the options decide the structure: elements named by default void names, default special
+    names, the names of the given options' own `empty` / `special` entries and ordinary names, each written -- whatever
+    its name -- as a pair `<n>..</n>`, as a lone open tag, as `<n/>` or as a stray close tag; special-named elements
+    hold tag-like text and sometimes a `type` attribute.  Mostly well nested; the caller mutates some."""
+    own_void, own_special = option_names(opts)
+    pools = [OPT_DEFAULT_VOID[:6], OPT_DEFAULT_SPECIAL, OPT_ORDINARY]
+    weights = [4, 2, 3]
+    if own_void:
+        pools.append(own_void)
+        weights.append(4)
+    if own_special:
+        pools.append(own_special)
+        weights.append(4)
+    special_like = set(OPT_DEFAULT_SPECIAL) | set(own_special)
+    budget = [rng.randint(2, max_nodes)]
+
+    def name():
+        return rng.choice(rng.choices(pools, weights)[0])
+
+    def attrs(n):
+        r = rng.random()
+        if n in special_like and r < 0.5:
+            return ' type=%s' % rng.choice(['"a"', '"x"', '""', 'ts', '"text/template"', 'b'])
+        if r < 0.25:
+            return rng.choice([' src="a.png"', ' class=c', ' id="i" hidden', " title='>'", ' rel="x"'])
+        return ''
+
+    def text():
+        return rng.choice(['', '', 'x', 'text', ' ', 'a > b'])
+
+    def node(depth):
+        budget[0] -= 1
+        n = name()
+        form = rng.random()
+        if form < 0.12:
+            return '<%s%s/>' % (n, attrs(n))
+        if form < 0.30:
+            return '<%s%s>' % (n, attrs(n)) + text()
+        if form < 0.35:
+            return '</%s>' % n
+        if n in special_like and rng.random() < 0.6:
+            body = ''.join(rng.choice(['<b>', '</b>', '<i>x</i>', 'x', '<br>', '</%s ' % n, '<%s>' % name()]) for _ in range(rng.randint(0, 3)))
+        else:
+            body = text()
+            while budget[0] > 0 and depth < 4 and rng.random() < 0.6:
+                body += node(depth + 1) + text()
+        return '<%s%s>%s</%s>' % (n, attrs(n), body, n)
+
+    out = text()
+    while True:
+        out += node(0) + text()
+        if budget[0] <= 0 or rng.random() < 0.3:
+            return out
+
+
+# hand-written documents in which xml / empty / special decide the result
+OPTION_SEEDS = [
+    '<p><br>x</br></p>', '<ul><li><img src="a.png">t</img><hr></li></ul>', '<a><link rel="x">y</link><b></b></a>',
+    '<p><input value="1">v</input></p>', '<list><item>one<item>two</list>', '<list><item>one</item><item/></list>',
+    '<a><raw><b></raw><c>z</c></a>', '<div><raw></div></raw></div>', '<script><b></script><b></b>', '<style><a></style></a>',
+    '<p><script type="x"><b></b></script></p>', '<a><b></a>', '<b><a></a></b>', '<ab><a><b></b></a></ab>', '<b type=a><a></b></a>',
+    '<x-foo><p>t</p><x-foo>', '<div><br><br/></br></div>', '<meta><p></meta></p>',
+]
